@@ -17,7 +17,7 @@ int main(void)
 {
 	br_x509_minimal_context xc;
 #ifdef NATIVE_REPLAY
-	memset(&xc, 0, sizeof xc);
+	NATIVE_FILL(&xc, sizeof xc);
 #endif
 	const br_x509_class **ctx = &xc.vtable;
 	xc.vtable = &br_x509_minimal_vtable;
